@@ -341,7 +341,6 @@ func init() {
 		}
 		return S(strconv.Itoa(int(int64(v.C))))
 	})
-	reg("strconv.Quote", func(g *G, fr *Frame, fn *ssa.Function, a []Value) Value { return g.quoteStr(a[0].(Str)) })
 }
 
 func (g *G) strToBytes(s Str) Value {
